@@ -294,6 +294,15 @@ fn compress_case<K: Kmer + Send + Sync>(c: &mut Case, gc: &GCase, which: Which) 
         check_join_log(&nodes, &spec.log.borrow())
             .map_err(|e| format!("compress_graph on the one-k-mer-per-node graph: {}", e))?;
         c.count("graphs_built", 1);
+        // the very graph object just returned, compressed again under the OTHER predicate: the result
+        // must follow that predicate (colours of merged nodes are uniform, so the relation is defined)
+        if by_colour {
+            let g3 = compress_graph(stranded, &SpySpec::new(false), gq, None);
+            let nodes3 = views(&g3.base);
+            check_maximal(&nodes3, &pruned_masks, k, stranded, &|_: &S, _: &S| true)
+                .map_err(|e| format!("graph returned by compress_graph(colour predicate) compressed again with the always-true predicate: {}", e))?;
+            c.count("same_object_predicate_switches", 1);
+        }
     }
     // the library's own colour predicate (ScmapCompress): payload = colour
     if which == Which::Maximal {
@@ -1336,7 +1345,21 @@ fn c06_case<K: Kmer + Send + Sync>(c: &mut Case, gc: &GCase) -> Result<(), Strin
     for (si, sub) in subsets.iter().enumerate() {
         let seqs = mk(*sub);
         let input = dna_seqs(&seqs);
+        // every other subset is filtered under a small memory unit (several bucket passes)
+        let multi = si % 2 == 1;
+        if multi {
+            let windows: usize = seqs.iter().map(|s| (s.bases.len() + 1).saturating_sub(k)).sum();
+            let kmer_mem = windows * std::mem::size_of::<(K, u32)>();
+            let slices = *c.rng.pick(&[2usize, 3, 5]);
+            if kmer_mem > slices {
+                debruijn::verif_hooks::set_filter_mem_unit(Some((kmer_mem / (slices - 1)).max(1)));
+            }
+        }
         let (rows, _) = lib_filter_spy::<K, DnaString>(&input, false, gc.thr, false);
+        if multi {
+            c.count("subset_runs_with_several_bucket_passes", (debruijn::verif_hooks::filter_pass_trace().len() > 1) as u64);
+            debruijn::verif_hooks::set_filter_mem_unit(None);
+        }
         let tv = table_view(&rows);
         for key in tv.keys() {
             ensure!(
@@ -1426,6 +1449,7 @@ pub fn run_c06(ctx: &Ctx) {
     });
     if !ctx.is_miri() {
         ctx.require("subset_runs", 500);
+        ctx.require("subset_runs_with_several_bucket_passes", 200);
         ctx.require("stranded_cases", 50);
         ctx.require("stranded_kmers_present_on_both_strands", 20);
     }
